@@ -220,6 +220,11 @@ def run(ctx):
             else:
                 rep.violation("SCALE-2", b.key, "%s by %s" % (op, c),
                               "%s::%s must %s by %s; constants found: %s" % (sn_, fn, op, c, sorted(ops, key=str)), where=b.loc())
+    check_exact(rep, prog)
+
+
+def check_exact(rep, prog, rid="EXACT-1"):
+    """wire seconds * 10^9 in a >= 80-bit type; Time - Time on signed operands. Shared with C09 (MEAS-8)."""
     # ---------------- EXACT-1
     try:
         ft_ = [x for x in prog.find(name="from", self_name="Time", crate="statime-lib") if "From<WireTimestamp>" in (x.trait_ref or "")][0]
@@ -234,21 +239,21 @@ def run(ctx):
         c9 = any(mir.op_const(o) == 1000000000 for bi, si, st in mir.iter_stmts(ft_) if st["k"] == "assign" and st["r"]["k"] == "bin"
                  for o in (st["r"]["a"], st["r"]["b"]))
         if wide and c9:
-            rep.ok("EXACT-1", ft_.key, "seconds * 10^9 in %s" % muls, where=ft_.loc())
+            rep.ok(rid, ft_.key, "seconds * 10^9 in %s" % muls, where=ft_.loc())
         else:
-            rep.violation("EXACT-1", ft_.key, "seconds * 10^9 in a wide type",
+            rep.violation(rid, ft_.key, "seconds * 10^9 in a wide type",
                           "wire seconds (48 bit) * 10^9 is computed in %s (constant 10^9 present: %s): needs at least 80 bits, a 64-bit "
                           "product wraps for timestamps beyond year 2554" % (muls or "no multiplication", c9), where=ft_.loc())
         tsub = [x for x in prog.find(name="sub", self_name="Time", crate="statime-lib") if "Sub<Time>" in (x.trait_ref or "")][0]
         s3 = df.canon_pos(df.Prov(tsub).local_tree(0), tsub)
         if s3 == "sub(from_fixed_nanos(arg1.inner), from_fixed_nanos(arg2.inner))":
-            rep.ok("EXACT-1", tsub.key, "Time - Time on signed 96.32 operands", detail=s3, where=tsub.loc())
+            rep.ok(rid, tsub.key, "Time - Time on signed 96.32 operands", detail=s3, where=tsub.loc())
         else:
-            rep.violation("EXACT-1", tsub.key, "Time - Time on signed operands",
+            rep.violation(rid, tsub.key, "Time - Time on signed operands",
                           "the difference of two times is computed as `%s`: both operands must be converted to the signed "
                           "representation first so that a negative difference does not wrap" % s3, where=tsub.loc())
     except (AnchorMissing, IndexError) as e:
-        rep.anchor_missing("EXACT-1", str(e))
+        rep.anchor_missing(rid, str(e))
 
 
 def const_of(t):
